@@ -111,17 +111,17 @@ theorem parseDesc_asmDesc (b0 : Bytes) (d : Desc) (h : parseDesc b0 = .ok d) (sa
   have s1 := sane.regionMap
   have s2 := sane.regionMaster
   simp only [regionSectionSize, mapSize, masterSize, nRegions] at *
-  generalize hsec : ([0, 0] ++ leN 2 d.eraseSize ++ encodeRegs regs' : Bytes) = sec
-  have hsecdef : ∀ x : Desc, x.eraseSize = d.eraseSize → x.regs = regs' → encodeRegionSection x = sec := by
-    intro x h1 h2; rw [← hsec]; unfold encodeRegionSection; rw [h1, h2]
-  have hsl : sec.length = 64 := by rw [← hsec]; simp [encodeRegs_length, hlen]
-  -- the assembled descriptor is the parsed buffer with the region section replaced
-  have hB : asmDesc { d with regs := regs' } = splice b0 d.regionStart sec := by
+  generalize hsec : (leN 2 d.eraseSize ++ encodeRegs regs' : Bytes) = sec
+  have hsecdef : ∀ x : Desc, x.eraseSize = d.eraseSize → x.regs = regs' → encodeRegionTail x = sec := by
+    intro x h1 h2; rw [← hsec]; unfold encodeRegionTail; rw [h1, h2]
+  have hsl : sec.length = 62 := by rw [← hsec]; simp [encodeRegs_length, hlen]
+  -- the assembled descriptor is the parsed buffer with the region section replaced from its third byte on
+  have hB : asmDesc { d with regs := regs' } = splice b0 (d.regionStart + 2) sec := by
     unfold asmDesc
     rw [hsecdef { d with regs := regs' } rfl rfl]
     simp only [hbuf]
     rw [hdmap, splice_slice_self b0 d.mapStart 16 (by omega)]
-    have : d.master = slice (splice b0 d.regionStart sec) d.masterStart 12 := by
+    have : d.master = slice (splice b0 (d.regionStart + 2) sec) d.masterStart 12 := by
       rw [slice_splice_disjoint _ _ _ _ _ (by omega) (by omega), hmaster]
     rw [this, splice_slice_self _ d.masterStart 12 (by rw [splice_length _ _ _ (by omega)]; omega)]
   generalize hBe : asmDesc { d with regs := regs' } = B at *
@@ -140,31 +140,40 @@ theorem parseDesc_asmDesc (b0 : Bytes) (d : Desc) (h : parseDesc b0 = .ok d) (sa
       rw [findSignature_congr b0 B (by omega) a16 a0]; exact hsig
   have hdm : slice B d.mapStart 16 = d.dmap := by
     rw [hB, slice_splice_disjoint _ _ _ _ _ (by omega) (by omega), hdmap]
-  have hse : slice B d.regionStart 64 = sec := by
+  have hse : slice B (d.regionStart + 2) 62 = sec := by
     rw [hB, ← hsl]; exact slice_splice_same _ _ _ (by omega)
   have hma : slice B d.masterStart 12 = d.master := by
     rw [hB, slice_splice_disjoint _ _ _ _ _ (by omega) (by omega), hmaster]
-  have hes2 : fromLE (slice sec 2 2) = d.eraseSize := by
-    rw [← hsec]
-    have : slice ([0, 0] ++ leN 2 d.eraseSize ++ encodeRegs regs' : Bytes) 2 2 = leN 2 d.eraseSize :=
-      slice_mid _ _ _ 2 2 rfl (leN_length 2 _)
+  -- what `parseDesc` reads from the 64-byte section window
+  have hwin2 : slice (slice B d.regionStart 64) 2 2 = slice sec 0 2 := by
+    rw [← hse]
+    simp only [slice]
+    rw [List.drop_take, List.drop_drop, List.take_take, List.drop_zero, List.take_take]
+  have hwin4 : (slice B d.regionStart 64).drop 4 = sec.drop 2 := by
+    rw [← hse]
+    simp only [slice]
+    rw [List.drop_take, List.drop_drop, List.drop_take, List.drop_drop]
+  have hes2 : fromLE (slice (slice B d.regionStart 64) 2 2) = d.eraseSize := by
+    rw [hwin2, ← hsec]
+    have : slice (leN 2 d.eraseSize ++ encodeRegs regs' : Bytes) 0 2 = leN 2 d.eraseSize :=
+      slice_mid' [] (leN 2 d.eraseSize) 0 2 rfl (leN_length 2 _)
     rw [this, fromLE_leN_of_lt 2 _ (by simpa using hes)]
-  have hrg : decodeRegs 15 (sec.drop 4) = regs' := by
-    rw [← hsec]
-    have : List.drop 4 ([0, 0] ++ leN 2 d.eraseSize ++ encodeRegs regs' : Bytes) = encodeRegs regs' ++ [] := by
+  have hrg : decodeRegs 15 ((slice B d.regionStart 64).drop 4) = regs' := by
+    rw [hwin4, ← hsec]
+    have : List.drop 2 (leN 2 d.eraseSize ++ encodeRegs regs' : Bytes) = encodeRegs regs' ++ [] := by
       rw [List.drop_append_of_le_length (by simp), List.drop_of_length_le (by simp)]; simp
     rw [this, ← hlen]
     exact decodeRegs_encodeRegs regs' hu []
   constructor
   · unfold parseDesc
     simp only [descLen, mapSize, regionSectionSize, masterSize, nRegions, hBl, ne_eq, not_true_eq_false, if_false, hfs,
-      hdm, ← hrs, ← hms, hse, hma, hes2, hrg]
+      hdm, ← hrs, ← hms, hma, hes2, hrg]
     have : ¬ (d.regionStart ≥ 4096 ∨ d.regionStart + 64 ≥ 4096) := by omega
     simp only [this, if_false]
   · unfold asmDesc
     simp only [hsecdef { d with regs := regs', buf := B } rfl rfl]
     rw [← hdm, splice_slice_self B d.mapStart 16 (by omega)]
-    rw [← hse, splice_slice_self B d.regionStart 64 (by omega)]
+    rw [← hse, splice_slice_self B (d.regionStart + 2) 62 (by omega)]
     rw [← hma, splice_slice_self B d.masterStart 12 (by omega)]
 
 /-! ### the partition table of a truncated ME buffer -/
@@ -288,7 +297,7 @@ def tableEnd (buf : Bytes) (i : Nat) : Nat :=
 set_option maxRecDepth 10000 in
 /-- **Idempotent across save + re-parse.** -/
 theorem reparse_idempotent (p0 : Nat) (img : Bytes) (f f' g' t t' s' : Flash) (pol pa pa' q0 q pb pb' : Nat)
-    (hsz : img.length % 4096 = 0) (hlt : img.length < 2 ^ 28)
+    (hsz : img.length % 4096 = 0) (hlt : img.length ≤ 2 ^ 28)
     (hp : parseFlash p0 img = .ok (f, pol)) (sane : f.desc.Sane)
     (ht : tighten pol f = .ok f') (hs : asmFlash pa f' = .ok (g', pa'))
     (hfit : ∀ mer ∈ f.regions, ∀ mer' ∈ f'.regions, mer.body.isME = true → mer'.body.isME = true →
